@@ -508,6 +508,8 @@ def run(ctx):
     ctx.do(r5_7)
     from . import c04, c10
     ctx.do(c04.r4_9)
+    from . import c16
+    ctx.do(c16.r16_5)
     from . import c03, c15
     ctx.do(c03.r3_5)
     ctx.do(c15.r15_3)
